@@ -84,3 +84,12 @@ chk("C13", MC,
     "response is symbolic; obligations: queued payload == struct reference encoding, returned tuple == reference decoding at "
     "the same offsets. All paths explored (exhaustive DART), every obligation discharged by z3 under the path condition.",
     PY_NOTE, "symbolic execution of the real Python coroutine with z3-backed proxies (path-exhaustive within bounds)", "B:8/C13")
+
+chk("C11", MC,
+    "The real Packet.append/assemble and SterilePacket.append/append_writer/sterile run symbolically: 1-3 (thorough 1-5) "
+    "datagrams each with a SYMBOLIC data length 0..1600 and symbolic content, index, address, working-counter preset, frame "
+    "index and ethertype; plus 14/15/16-datagram frames around the count limit. An independent ETG.1000.4 walker over the "
+    "assembled byte rope proves header length, every datagram header field, the 'more' flag, data bytes (symbolic probe "
+    "index) and working counter at the positions append reported, padding to 46, rejection iff it does not fit, rejected "
+    "append leaves the packet unchanged; sterile copy differs only by NOP on writer commands.",
+    PY_NOTE, "symbolic execution of the real Python with byte ropes of symbolic length (z3 BV, path-exhaustive)", "B:8/C11")
